@@ -189,8 +189,10 @@ func (r Condition) SetOperator(op Operator) Condition {
 }
 
 func (r *condition) setOperator(op Operator) {
-	if len(op.Context()) > 0 && len(op.String()) > 0 {
-		r.op = op
+	if op != nil {
+		if len(op.Context()) > 0 && len(op.String()) > 0 {
+			r.op = op
+		}
 	}
 }
 
@@ -345,12 +347,18 @@ func (r *condition) isEqual(o *condition) error {
 		return errorf("Condition keyword mismatch")
 	}
 
-	if r.op.String() != o.op.String() {
+	if (r.op == nil) != (o.op == nil) {
 		return errorf("Condition operator mismatch")
 	}
 
-	if r.op.Context() != o.op.Context() {
-		return errorf("Condition operator (context) mismatch")
+	if r.op != nil {
+		if r.op.String() != o.op.String() {
+			return errorf("Condition operator mismatch")
+		}
+
+		if r.op.Context() != o.op.Context() {
+			return errorf("Condition operator (context) mismatch")
+		}
 	}
 
 	iexpr := r.ex
@@ -778,6 +786,9 @@ func (r Condition) Valid() (err error) {
 				return
 			}
 		}
+	} else {
+		err = errorf("operator value is nil")
+		return
 	}
 
 	// verify expression value
